@@ -368,6 +368,14 @@ class Elab(object):
                 return self.term(sx[1], scope)
             if name == "_":
                 return self.indexed_constant(sx)
+            if name == "as":
+                # (as identifier sort): the identifier, whose sort must be the given one
+                if len(sx) != 3 or not (isinstance(sx[1], Atom) and sx[1].kind in ("sym", "qsym")):
+                    raise IllFormed("syntax", "qualified identifier")
+                v = self.atom(sx[1], scope)
+                if self.ty(v) != self.sort(sx[2]):
+                    raise IllFormed("ill-sorted", "(as %s ...) with another sort" % sx[1].val)
+                return v
         # binders / locals first
         b = scope.get(name)
         args_sx = sx[1:]
